@@ -18,7 +18,7 @@ pub const LAT_STEP: f64 = 6.0 / 131072.0;
 /// metres per degree of latitude
 pub const M_PER_DEG: f64 = 111_194.93;
 
-pub const STRATA: [&str; 9] = [
+pub const STRATA: [&str; 10] = [
     "uniform-sphere",
     "nl-transition",
     "lat87",
@@ -28,6 +28,7 @@ pub const STRATA: [&str; 9] = [
     "zone-edge-odd",
     "lat87-exact",
     "mid-lat-dense",
+    "bin-edge-at-zone-edge",
 ];
 
 fn special_lon(sel: u32, u: f64, eps: f64) -> f64 {
@@ -84,13 +85,30 @@ pub fn make_point(stratum: usize, a: f64, b: f64, k: u32, sign: bool, lonsel: u3
             let steps = (k % 5) as f64 - 2.0;
             (s * (87.0 + steps * LAT_STEP), lon0)
         }
+        9 => {
+            let (la, _) = bin_edge_point(k, a);
+            (s * la, lon0)
+        }
         _ => (s * (30.0 + 40.0 * a), lon0),
     };
     Pt { lat: clamp_lat(lat), lon: wrap180(lon), stratum: STRATA[stratum.min(STRATA.len() - 1)] }
 }
 
+/// Latitudes where the rounding of one format's latitude count flips, right next to a latitude-zone edge of either
+/// format: there the even report can carry the last count of one zone while the odd report already carries count 0 of
+/// the next (a strip a few centimetres wide, e.g. 2.545 .. 2.588 m south of the equator).
+/// k selects the edge (even grid 6 k deg / odd grid 360/59 k deg), whose bin is used and which count boundary
+/// (-2.5 .. +1.5 bins from the edge); a in [0, 1) puts the point within +-2e-7 deg (2 cm) of that boundary.
+pub fn bin_edge_point(k: u32, a: f64) -> (f64, u32) {
+    let edge = if (k / 16) % 2 == 0 { 6.0 * (k % 16) as f64 } else { (360.0 / 59.0) * (k % 15) as f64 };
+    let bin = if (k / 32) % 2 == 0 { 6.0 / 131072.0 } else { (360.0 / 59.0) / 131072.0 };
+    let m = ((k / 64) % 4) as f64 - 2.0;
+    let tiny = (2.0 * a - 1.0) * 2e-7;
+    ((edge + (m + 0.5) * bin + tiny).clamp(0.0, 90.0), k % 512)
+}
+
 /// weights: uniform 3, transitions 4, 87: 2, pole 1, equator 1, edges 1+1, exact87 1, mid 1
-const WEIGHTED: [usize; 15] = [0, 0, 0, 1, 1, 1, 1, 2, 2, 3, 4, 5, 6, 7, 8];
+const WEIGHTED: [usize; 17] = [0, 0, 0, 1, 1, 1, 1, 2, 2, 3, 4, 5, 6, 7, 8, 9, 9];
 
 pub fn point() -> impl Strategy<Value = Pt> {
     (0usize..WEIGHTED.len(), 0.0f64..1.0, 0.0f64..1.0, 0u32..1000, any::<bool>(), 0u32..10, 0.0f64..1.0)
